@@ -3,6 +3,7 @@ module verif/harness
 go 1.13
 
 require (
+	github.com/anishathalye/porcupine v1.3.0
 	github.com/pokt-network/posmint v0.0.0
 	github.com/tendermint/go-amino v0.15.0
 	github.com/tendermint/iavl v0.12.4
